@@ -1,25 +1,43 @@
 """Shared by the checks built on the in-process MOSN life-cycle drivers (C03, C10, C14, C17)."""
 import json, os, re, subprocess, sys
+from concurrent.futures import ThreadPoolExecutor
 import vlib
+
+
+IMPL_DEFECTS = ("NoDeadlineCheck", "SilentExitInUpFilter", "StaleFlagAfterRetry", "DropRetryStateWithoutRelease", "StaleWakeEndsRequest",
+                "AnsweredCountsAsStarted", "PerTryTimerSurvivesRetry")
 
 
 def impl_model_checks(ctx):
     """DownstreamImpl: the implementation-shaped model of downstream.go must be hang-free for the repaired design and
-    TLC must find the hang / silent exit / fall-out for every named defect (non-vacuity)."""
+    TLC must find the hang / silent exit / fall-out / lost reply / stray per-try timeout for every named defect
+    (non-vacuity).  The attempt with two events (behaviour "okclose": answered, then reset behind the answer) doubles the
+    state space, so it is checked in configurations of its own: quick - 2 attempts, every behaviour, no per-try timer
+    (DownstreamImpl_quick_okclose.cfg); thorough - 2 attempts with the per-try timer (DownstreamImpl_thorough_okclose.cfg)
+    and 3 attempts without (DownstreamImpl_thorough_notry.cfg).  The runs go side by side (a share of the cores each)."""
     tier = "quick" if ctx.quick() else "thorough"
-    for cfg in ("DownstreamImpl_%s.cfg" % tier, "DownstreamImpl_%s_notry.cfg" % tier):
-        ctx.add_tlc(vlib.run_tlc(ctx, "lifecycle", "DownstreamImpl", cfg, timeout=1500))
-    for d in ("NoDeadlineCheck", "SilentExitInUpFilter", "StaleFlagAfterRetry", "DropRetryStateWithoutRelease", "StaleWakeEndsRequest"):
-        if vlib.run_tlc(ctx, "lifecycle", "DownstreamImpl", "DownstreamImpl_defect_%s.cfg" % d, expect_ok=False)["ok"]:
-            raise vlib.Inconclusive("DownstreamImpl does not reject defect " + d)
-    if vlib.run_tlc(ctx, "lifecycle", "DownstreamImpl", "DownstreamImpl_loop.cfg", expect_ok=False)["ok"]:
-        raise vlib.Inconclusive("DownstreamImpl does not show the task-loop fall-out for a small loop bound")
-    # the end of one stream object (BaseStream: reset path vs response path): OnDestroyStream exactly once; the guided
-    # schedule ResetVsResponse of Scenarios.tla is the counterexample of the CheckThenAct defect
-    ctx.add_tlc(vlib.run_tlc(ctx, "stream", "BaseStream", "BaseStream.cfg", timeout=900))
-    for d in ("CheckThenAct", "NoClaim"):
-        if vlib.run_tlc(ctx, "stream", "BaseStream", "BaseStream_defect_%s.cfg" % d, expect_ok=False)["ok"]:
-            raise vlib.Inconclusive("BaseStream does not reject defect " + d)
+    big = ["DownstreamImpl_%s.cfg" % tier, "DownstreamImpl_%s_notry.cfg" % tier, "DownstreamImpl_%s_okclose.cfg" % tier]
+    with ThreadPoolExecutor(8) as ex:
+        ok = [(cfg, ex.submit(vlib.run_tlc, ctx, "lifecycle", "DownstreamImpl", cfg, workers=max(2, vlib.NCPU // 2 - 1), timeout=1500)) for cfg in big]
+        bad = [(d, ex.submit(vlib.run_tlc, ctx, "lifecycle", "DownstreamImpl", "DownstreamImpl_defect_%s.cfg" % d, workers=2, expect_ok=False))
+               for d in IMPL_DEFECTS]
+        loop = ex.submit(vlib.run_tlc, ctx, "lifecycle", "DownstreamImpl", "DownstreamImpl_loop.cfg", workers=2, expect_ok=False)
+        # the end of one stream object (BaseStream: reset path vs response path): OnDestroyStream exactly once; the guided
+        # schedule ResetVsResponse of Scenarios.tla is the counterexample of the CheckThenAct defect
+        bs = ex.submit(vlib.run_tlc, ctx, "stream", "BaseStream", "BaseStream.cfg", workers=2, timeout=900)
+        bsbad = [(d, ex.submit(vlib.run_tlc, ctx, "stream", "BaseStream", "BaseStream_defect_%s.cfg" % d, workers=1, expect_ok=False))
+                 for d in ("CheckThenAct", "NoClaim")]
+        for cfg, f in ok:
+            ctx.add_tlc(f.result())
+        for d, f in bad:
+            if f.result()["ok"]:
+                raise vlib.Inconclusive("DownstreamImpl does not reject defect " + d)
+        if loop.result()["ok"]:
+            raise vlib.Inconclusive("DownstreamImpl does not show the task-loop fall-out for a small loop bound")
+        ctx.add_tlc(bs.result())
+        for d, f in bsbad:
+            if f.result()["ok"]:
+                raise vlib.Inconclusive("BaseStream does not reject defect " + d)
 
 
 def model_checks(ctx):
